@@ -422,7 +422,7 @@ func c08Units(tier string) []hx.Unit {
 					switch {
 					case tier == "thorough" && n <= 2:
 						u.Bound = 2
-					case tier == "thorough" || n <= 2:
+					case n <= 2:
 						u.Bound = 1
 					default:
 						u.Bound = 0
@@ -850,7 +850,7 @@ func init() {
 	hx.Register(&hx.Prop{
 		ID:    "C08",
 		Title: "A submission reaches every configured node and succeeds iff one accepts",
-		Rule: "for each of the 8 submission kinds of the multinode submitter and n = 1..2 (thorough 3) scripted nodes: every assignment of behaviour (accept, reject, each client-specific tolerated rejection, error JSON with one real failure (after or before a tolerated one) / without failure list / with a null failure / non-JSON) x latency (0, <timeout, =timeout, >timeout, hang) per node x payload size {1,3} x process concurrency {1,2,4} x later nodes configured for every kind / for this kind only, explored with deviation-bounded schedules (bound 0-1); plus, for the kinds with tolerated rejections, every history of 2 (thorough 3) submissions through one service instance to a node whose version endpoint is up or down and which accepts, rejects tolerably or rejects; plus, per kind, three submissions in a row through one service to a hanging and a healthy node; plus the immediate submitter per kind and util.Scatter for all (items<=24, concurrency<=6); " +
+		Rule: "for each of the 8 submission kinds of the multinode submitter and n = 1..2 (thorough 3) scripted nodes: every assignment of behaviour (accept, reject, each client-specific tolerated rejection, error JSON with one real failure (after or before a tolerated one) / without failure list / with a null failure / non-JSON) x latency (0, <timeout, =timeout, >timeout, hang) per node x payload size {1,3} x process concurrency {1,2,4} x later nodes configured for every kind / for this kind only, explored with deviation-bounded schedules (n <= 2: one deviation, thorough two; n = 3: the default schedule with every select tie, in both tiers - one deviation there is 6.7 M executions per unit and did not finish in 40 minutes); plus, for the kinds with tolerated rejections, every history of 2 (thorough 3) submissions through one service instance to a node whose version endpoint is up or down and which accepts, rejects tolerably or rejects; plus, per kind, three submissions in a row through one service to a hanging and a healthy node; plus the immediate submitter per kind and util.Scatter for all (items<=24, concurrency<=6); " +
 			"non-trivial = more than one node or a contended scheduling point; distinct = distinct (result, return second) outcomes",
 		Assumptions: []string{
 			"the set of rejections vouch deliberately tolerates is the one in the code's client/kind table (lighthouse known/behind, nimbus unknown target, lighthouse/teku all-duplicate failures)",
